@@ -14,7 +14,7 @@ from scan_common import is_f6
 ID = "C16"
 DECODERS = ["find_cmd_strings", "find_powershell_strings"]
 RULE = ("strip_carets: exhaustive over the alphabet {^ \" CR LF a space} to length 6 (quick) / 8 (thorough), model = implementation = specification; deobfuscate_cmd, paren_cut likewise on sampled words; "
-        "find_cmd_strings / find_powershell_strings: words sampled from CMD_RE / POWERSHELL_INDICATOR_RE / ENC_RE, command texts over {( ) ^ \" ' NUL cmd powershell -enc ...} embedded in parenthesised / "
+        "find_cmd_strings / find_powershell_strings: words sampled from CMD_RE / POWERSHELL_INDICATOR_RE / ENC_RE, command texts over {( ) ^ \" ' NUL cmd powershell -enc ...} every arrangement of ( ) text ^ \" up to length 4 (quick) / 6 (thorough) after a cmd token, embedded in parenthesised / "
         "quoted / FOR-loop contexts, every prefix of -encodedcommand in - and / style with quoting and carets. non-trivial = output differs from the input (carets) / at least one node (decoders)")
 TRUSTED_BASE = ["model of the regex engine (Regex/Backtrack.v)", "bytes.split/rsplit/strip/find models (Model/Dec/Shell.v) pinned by the probes"]
 ASSUMPTIONS = ["known finding F6 (PowerShell result without quote / FOR context ends at len(data) - start) is kept in the model as coded and reported as KNOWN-FINDING"]
@@ -41,6 +41,15 @@ def enc_texts(rng):
             pre = rng.choice([b"powershell", b"pwsh", b"powershell.exe", b"p^owershell", b'"powershell"', b"powershell -nop -w hidden", b"PowerShell /nop"])
             out.append(rng.choice([b"", b"cmd /c ", b"x; ", b"'", b"FOR /F %i IN ('"]) + pre + style + sw + b" " + arg + rng.choice([b"", b"'", b"')", b" & echo"]))
     return out
+
+
+def paren_texts(maxlen):
+    """every arrangement of parentheses / text / carets / quotes after a cmd token (the delimiting rule: stop at the first closing parenthesis that is not
+    balanced by an opening one inside the command, whatever follows)"""
+    alpha = [b"(", b")", b"a ", b"^", b'"']
+    for n in range(maxlen + 1):
+        for t in itertools.product(alpha, repeat=n):
+            yield b"(cmd /c " + b"".join(t)
 
 
 def cmd_oracle(dn, data, out):
@@ -85,7 +94,8 @@ def run(ctx):
     sample = [words[i] for i in range(0, len(words), 37)]
     ctx.compare("deobfuscate_cmd", sample, lambda w: impl_call(lambda: list(deobfuscate_cmd(w))))
     extra = enc_texts(ctx.rng) + [corpus_gen.shell(ctx.rng) for _ in range(ctx.budget(150, 2000))]
-    extra += [b"cmd a) b) c", b"(cmd /c (echo a) & b) & c)", b"cmd /c x\x00tail)", b'"cmd" x', b"cmd'\t/c\r\nx  ", b"c^m^d /c ^", b"cmd ^)x", b"aaaaaaaaaaaaaa;p^owershell x",
+    extra += list(paren_texts(ctx.budget(4, 6)))
+    extra += [b"(cmd /c dir) & echo (", b"IF EXIST a (cmd /c ty^pe a) ELSE (echo x & echo (gone", b"((cmd /c a) b) ((", b"cmd /c a) (", b"cmd a) b) c", b"(cmd /c (echo a) & b) & c)", b"cmd /c x\x00tail)", b'"cmd" x', b"cmd'\t/c\r\nx  ", b"c^m^d /c ^", b"cmd ^)x", b"aaaaaaaaaaaaaa;p^owershell x",
               b"powershell/e^\r\nAAAA", b"^powershell -enc 0x41,0x42,V", b'x = "powershell -nop Get-Item and no closing quote', b"('powershell a') b"]
     run_decoder_probe(ctx, DECODERS, extra_inputs=extra, oracle=cmd_oracle, n_regex=60, n_corpus=100, kinds=("shell", "splice", "stack"))
     for d in extra:
